@@ -1,4 +1,5 @@
 mod adapter;
+mod arch;
 mod choice;
 mod gen;
 mod link;
